@@ -295,6 +295,9 @@ Definition valid_index_reg (r : text) : bool :=
 Definition translate_indexed (indirect : bool) (l : side) (r : text) (i : irow) : res codepkg :=
   opt_op (Tables.ind i) (fun opc =>
   if negb (valid_index_reg r) then OTE else
+  (* ,PCR needs an offset; an accumulator offset needs a plain index register (repair F49) *)
+  if (match l with LStr t => Nat.eqb (length t) 0 | LVal _ => false end) && text_eqb r t_PCR then OTE else
+  if (match left_abd l with Some _ => true | None => false end) && negb (existsb (text_eqb r) [[88]; [89]; [85]; [83]]) then OTE else
   let sz := Tables.ind_sz i in
   let ib := if indirect then 16 else 0 in              (* the indirect bit *)
   let raw0 := N.lor (if indirect then 128 else 0) (reg_bits r) in
